@@ -189,6 +189,17 @@ func runC18(c *Ctx) {
 			delete(cfg.Env, "RDPGW_SERVER__HOSTS")
 		}
 		d = append(d, "via=file+env")
+		if nh > 0 && c.T.Bool(1, 3) {
+			// a large farm, listed in the environment only (the file names no host at all)
+			var farm []string
+			nf := 30 + c.T.Choose(30)
+			for i := 0; i < nf; i++ {
+				farm = append(farm, fmt.Sprintf("rds-farm-node-%02d.datacenter-west.corp.example.com:3389", i))
+			}
+			cfg.Env["RDPGW_SERVER__HOSTS"] = strings.Join(farm, " ")
+			cfg.Hosts = nil
+			d = append(d, fmt.Sprintf("hosts-by-environment-only=%d", len(farm)))
+		}
 	} else {
 		d = append(d, "via=file")
 	}
